@@ -1,8 +1,5 @@
 package main
 
-func genSyncSkeleton(p *pkgInfo) string {
-	return "-- GENERATED (stub)\nnamespace Gowarc.Gen\nend Gowarc.Gen\n"
-}
 func genSharedAccess(p, db *pkgInfo) string {
 	return "-- GENERATED (stub)\nnamespace Gowarc.Gen\nend Gowarc.Gen\n"
 }
